@@ -9,6 +9,7 @@ mod k_lex;
 mod k_damage;
 mod k_crash;
 mod k_anytext;
+mod k_big;
 mod k_val;
 mod k_hist;
 mod k_histf;
@@ -37,6 +38,7 @@ fn run_line(line: &str) -> String {
         "damage" => k_damage::run(&f[1..]),
         "crash" => k_crash::run(&f[1..]),
         "anytext" => k_anytext::run(&f[1..]),
+        "bigeval" => k_big::run(&f[1..]),
         "stack" => k_crash::run_stack(&f[1..]),
         "valop" => k_val::run(&f[1..]),
         "valexpr" => k_val::run_expr(&f[1..]),
@@ -78,6 +80,7 @@ fn main() {
                     "damage" => k_damage::gen(&mut rng, tier, i, &mut stats),
                     "crash" => k_crash::gen(&mut rng, tier, i, &mut stats),
                     "anytext" => k_anytext::gen(&mut rng, tier, i, &mut stats),
+                    "bigeval" => k_big::gen(&mut rng, tier, i, &mut stats),
                     "crashx" => k_crash::gen_exhaustive(i + offset),
                     "stack" => k_crash::gen_stack(i),
                     "valop" => k_val::gen(&mut rng, tier, i, &mut stats),
